@@ -94,52 +94,63 @@ class Outcome:
 
 
 def prove(o):
-    """compile Properties_<id>.vo (full .vo build) and account for its theorems"""
+    """compile Properties_<id>.vo and Properties_<id>_tie.vo (full .vo builds) and account for their theorems.
+    The first holds the theorems about the model, the second the ties to the Gallina generated from the current
+    C source; they are accounted for separately, so a broken tie leaves the model theorems discharged."""
     pid = o.pid
-    vf = os.path.join(COQ, "Properties_%s.v" % pid)
-    if not os.path.exists(vf):
+    files = [f for f in ("Properties_%s.v" % pid, "Properties_%s_tie.v" % pid) if os.path.exists(os.path.join(COQ, f))]
+    if not files:
         o.notes.append("no Properties_%s.v yet" % pid)
         return
-    txt = open(vf).read()
-    code = re.sub(r"\(\*.*?\*\)", "", txt, flags=re.S)
-    thms = re.findall(r"^\s*(?:Theorem|Corollary)\s+([A-Za-z0-9_']+)", code, re.M)
-    o.obligations = len(thms)
-    o.theorems = thms
     bad = core.scan_forbidden()
     if bad:
         o.broken.append(dict(kind="forbidden-construct", what="; ".join(bad[:5])))
-    ok, out = core.coq_make(["Properties_%s.vo" % pid])
+    ok, out = core.coq_make([f + "o" for f in files])
     with open(os.path.join(BUILD, "coq.%s.log" % pid), "w") as f:
         f.write(out)
-    if ok and os.path.exists(os.path.join(COQ, "Properties_%s.vo" % pid)):
-        o.discharged = o.obligations
-        # Print Assumptions output is only shown when the file is actually compiled; re-run coqc on
-        # the property file alone (cheap: its dependencies are compiled) to capture it
-        rc, pout = core.sh(["coqc", "-Q", ".", "PS", "Properties_%s.v" % pid], cwd=COQ, timeout=900)
-        closed = len(re.findall(r"Closed under the global context", pout))
-        axioms = re.findall(r"Axioms:\n((?:.+\n)+?)(?=\S|\Z)", pout)
-        o.assumptions_seen = ["%d theorem(s): Closed under the global context" % closed] + \
-                             ["Axioms: " + a.strip().replace("\n", " | ") for a in axioms]
-        if axioms:
-            o.notes.append("Print Assumptions reports axioms: " + "; ".join(a.strip()[:200] for a in axioms))
-        if "Print Assumptions" in txt and closed + len(axioms) < o.obligations:
-            o.notes.append("fewer Print Assumptions outputs (%d) than theorems (%d)" % (closed + len(axioms), o.obligations))
-    else:
+    o.assumptions_seen = []
+    errs = core.coq_errors(out) if hasattr(core, "coq_errors") else ([core.coq_first_error(out)] if core.coq_first_error(out) else [])
+    for vf in files:
+        txt = open(os.path.join(COQ, vf)).read()
+        code = re.sub(r"\(\*.*?\*\)", "", txt, flags=re.S)
+        thms = re.findall(r"^\s*(?:Theorem|Corollary)\s+([A-Za-z0-9_']+)", code, re.M)
+        o.obligations += len(thms)
+        o.theorems += thms
+        vo = os.path.join(COQ, vf + "o")
+        built = os.path.exists(vo) and os.path.getmtime(vo) >= os.path.getmtime(os.path.join(COQ, vf))
+        if built and not any(e and e[0] == vf for e in errs):
+            # it may be stale if a dependency failed: make -k leaves the old .vo; ask make
+            rc2, _o2 = core.sh(["make", "-q", vf + "o"], cwd=COQ, timeout=120)
+            built = rc2 == 0
+        if built:
+            o.discharged += len(thms)
+            # Print Assumptions output is only shown when the file is actually compiled; re-run coqc on
+            # the property file alone (cheap: its dependencies are compiled) to capture it
+            rc, pout = core.sh(["coqc", "-Q", ".", "PS", vf], cwd=COQ, timeout=900)
+            closed = len(re.findall(r"Closed under the global context", pout))
+            axioms = re.findall(r"Axioms:\n((?:.+\n)+?)(?=\S|\Z)", pout)
+            o.assumptions_seen += ["%s: %d theorem(s): Closed under the global context" % (vf, closed)] + \
+                                  ["Axioms: " + a.strip().replace("\n", " | ") for a in axioms]
+            if axioms:
+                o.notes.append("Print Assumptions reports axioms: " + "; ".join(a.strip()[:200] for a in axioms))
+            if "Print Assumptions" in txt and closed + len(axioms) < len(thms):
+                o.notes.append("%s: fewer Print Assumptions outputs (%d) than theorems (%d)" % (vf, closed + len(axioms), len(thms)))
+        else:
+            mine = [e for e in errs if e and e[0] == vf]
+            if mine:
+                f, line, msg = mine[0]
+                before = [t for t in thms if txt.find("Theorem " + t) >= 0 and
+                          txt[:txt.find("Theorem " + t)].count("\n") + 1 < line]
+                stmt = core.enclosing_statement(f, line)
+                o.discharged += max(0, len(before) - (1 if stmt in before else 0))
+    if not ok:
         err = core.coq_first_error(out)
         if err:
             f, line, msg = err
             stmt = core.enclosing_statement(f, line)
             o.broken.append(dict(kind="proof-obligation", file=f, line=line, statement=stmt, error=msg))
-            # theorems of the property file before the failing one are discharged only if it is that file
-            if f == "Properties_%s.v" % pid:
-                before = [t for t in thms if txt.find("Theorem " + t) >= 0 and
-                          txt[:txt.find("Theorem " + t)].count("\n") + 1 < line]
-                o.discharged = max(0, len(before) - (1 if stmt in before else 0))
-            else:
-                o.discharged = 0
         else:
             o.broken.append(dict(kind="proof-obligation", file="?", line=0, statement=None, error=out[-1500:]))
-            o.discharged = 0
 
 
 def run_suite(o, cx, name, variant="asan", sgn=None, lines=None, label=None):
@@ -220,7 +231,7 @@ def write_evidence(o, wall, violations):
     ]
     cov = dict(
         obligations=max(o.obligations, 0), discharged=o.discharged,
-        checker_cmd="cd coq && coq_makefile -f _CoqProject -o Makefile && make -k -j16 Properties_%s.vo (full .vo build, Coq 8.16.1)" % o.pid,
+        checker_cmd="cd coq && coq_makefile -f _CoqProject -o Makefile && make -k -j16 Properties_%s.vo Properties_%s_tie.vo (full .vo builds, Coq 8.16.1)" % (o.pid, o.pid),
         trusted_base=tb,
         evaluations=o.evaluations, distinct_nontrivial=len(o.distinct),
         rule="op lines generated by the property's suites from VERIF_SEED (harness/suites.py), each executed on the implementation (ASan+UBSan build of /repo's working tree), the extracted mirror model and the extracted abstract spec; non-trivial = passes the first validation step of its function (16 tokens / format / supported feature request) or belongs to an exhaustive sweep; distinct by the text of the op line",
